@@ -199,6 +199,19 @@ def build_cases(ctx, env):
             cases.append(Case(w, t, default, "utf8-reader:u", io="reader"))
         for pname, w2, t2 in positions(w, G.T("string")):
             cases.append(Case(w2, t2, default, "utf8-pos:" + pname, pos=pname, inner=(w, G.T("string"))))
+    # the cost limits of *big.Int (binary digits of a double) and *big.Rat (written exponent of a text)
+    big_types = [G.T("bigint"), G.Ptr(G.T("bigint")), G.T("bigrat"), G.Ptr(G.T("bigrat")), G.T("bigfloat"), G.IFACE, G.T("float64"),
+                 G.T("string"), G.Slice(G.T("bigint")), G.Slice(G.T("bigrat")), G.Map(G.T("string"), G.Ptr(G.T("bigrat")))]
+    for kind, texts in (("d", G.COST_DOUBLES), ("s", G.COST_STRINGS)):
+        for b in texts:
+            w = (kind, b)
+            for t in big_types:
+                w2 = ("a", [w, w]) if t["k"] == "slice" else (("m", [("u", b"k"), w]) if t["k"] == "map" else w)
+                cases.append(Case(w2, t, default, "cost:" + kind))
+            if kind == "s":    # the same text through the converters of the reference list
+                cases.append(Case(("a", [w, ("r", 1)]), G.Slice(G.T("bigrat")), refopt, "cost-ref:s"))
+                cases.append(Case(("a", [w, ("r", 1)]), G.Slice(G.Ptr(G.T("bigrat"))), refopt, "cost-ref:s"))
+            cases.append(Case(w, G.IFACE, G.Opts(True, "bigint", "bigfloat"), "cost-opts:" + kind))
     # local zones with an offset: every time token (and the numbers and strings that convert to times) into the time
     # destinations with time.Local at +05:00 and -09:30; the oracle answers (unix, tstr, ptime) are taken in the same zone
     time_toks = [w for w in toks if w[0] in ("D", "DT", "T")]
